@@ -199,7 +199,8 @@ func Walk(bucket map[string][]byte, nodePrefix string, root *RootInfo) *WTree {
 			t.Problems = append(t.Problems, fmt.Sprintf("node %s: %d keys, %d links", name, len(n.Key), len(n.Link)))
 			return
 		}
-		if len(n.Key) == 0 && len(n.Link) == 0 {
+		if len(n.Key) == 0 && len(n.Link) == 0 && !(depth == 0 && root.Size == 0) {
+			// (an emptied table keeps an empty root node: mast leaves one behind when the last entry is purged)
 			t.Problems = append(t.Problems, fmt.Sprintf("node %s is empty", name))
 		}
 		for i := 0; i <= len(n.Key); i++ {
